@@ -131,6 +131,29 @@ def integer(ctx: RuleCtx, mod: T.Any) -> None:
     isstr = Atom('isinstance', ('ARG1', ('str',)))
     if any(isstr not in r.conds for r in tab.rows):
         raise Undecided(f'{qn}: a path does not test whether the value is a str')
+    # a bound tested by its TRUTH (`if self.min_value and ...`): the fields are Optional[int], so the truth of a bound is
+    # "not None and not 0" - the world "bound present, falsy" (a bound of exactly 0) exists and is enumerated; only the
+    # combinations the type excludes are pruned (None and truthy; == 0 and truthy; None and == 0; present, falsy, != 0)
+    min_true, max_true = A(mn), A(mx)
+    min_zero, max_zero = A(f'{mn} == 0'), A(f'{mx} == 0')
+    present = [a for a in (min_true, max_true, min_zero, max_zero) if a in tab.atoms()]
+    if present:
+        cls = mod.cls(qn.split('.')[0])
+        for field in ('min_value', 'max_value'):
+            ann = [st.annotation for st in cls.body if isinstance(st, ast.AnnAssign) and isinstance(st.target, ast.Name) and st.target.id == field]
+            if len(ann) != 1 or norm(ann[0]) not in ('T.Optional[int]', 'Optional[int]', 'int | None', 'None | int', 'T.Union[int, None]', 'T.Union[None, int]'):
+                raise Undecided(f'{qn}: a bound is tested by its truth value, but {field} is not declared Optional[int] in {cls.name}: what a falsy bound is cannot be told')
+
+    def bounds_consistent(w: T.Dict[Atom, bool]) -> bool:
+        for none, true, zero in ((min_none, min_true, min_zero), (max_none, max_true, max_zero)):
+            n_, t_, z_ = w[none], w.get(true), w.get(zero)
+            if n_ and (t_ or z_):
+                return False
+            if t_ and z_:
+                return False
+            if t_ is False and z_ is False and not n_:
+                return False
+        return True
     # the value that is range-checked is toint(value) for a str and the value itself otherwise: one table each
     for v, is_str in ((TI, True), ('ARG1', False)):
         part = tables.Table([r for r in tab.rows if r.conds[isstr] is is_str], f'{qn} [{"str" if is_str else "non-str"} input]')
@@ -138,10 +161,12 @@ def integer(ctx: RuleCtx, mod: T.Any) -> None:
         lo_max, hi_max = Atom('cmp', ('lt', v, mx)), Atom('cmp', ('lt', mx, v))
         sem = {min_none: 'no minimum', max_none: 'no maximum', isstr: 'input is a str', lo_min: 'below minimum', hi_min: 'above minimum',
                lo_max: 'below maximum', hi_max: 'above maximum', Atom('cmp', ('eq', *sorted((v, mn)))): 'equals minimum', Atom('cmp', ('eq', *sorted((v, mx)))): 'equals maximum'}
+        sem.update({a: k for a, k in ((min_true, 'minimum is truthy (present and not 0)'), (max_true, 'maximum is truthy (present and not 0)'),
+                                      (min_zero, 'minimum is 0'), (max_zero, 'maximum is 0')) if a in present})
 
         def view(w: T.Dict[Atom, bool], v: str = v, is_str: bool = is_str, lo_min: Atom = lo_min, hi_max: Atom = hi_max) -> T.Any:
             t1 = type_of(w, 'ARG1')
-            if (t1 == 'str') != is_str:
+            if (t1 == 'str') != is_str or not bounds_consistent(w):
                 return None
             return v, (type_of(w, v) if is_str else t1), w[min_none], w[max_none], w[lo_min], w[hi_max]
 
@@ -154,7 +179,7 @@ def integer(ctx: RuleCtx, mod: T.Any) -> None:
             if not nomax and above:
                 return ('raise', EXC)
             return ('return', val)
-        extra = [min_none, max_none, lo_min, hi_min, lo_max, hi_max, isstr] + [Atom('isinstance', (s, (t,))) for s in {'ARG1', v} for t in ('bool', 'int')]
+        extra = [min_none, max_none, lo_min, hi_min, lo_max, hi_max, isstr] + present + [Atom('isinstance', (s, (t,))) for s in {'ARG1', v} for t in ('bool', 'int')]
         _compare(ctx, mod, part.name, fn, part, sem, view, ref, outcome, extra,
                   what='reference (str converted by toint; bool and non-int rejected; below minimum / above maximum rejected; boundaries accepted)')
     _toint(ctx, mod, 'UserIntegerOption.toint', 'int(ARG1)', 'decimal')
